@@ -7,8 +7,12 @@ Claimed is what pymattersim's own code adds around it, for every tessellation th
   * VolumeMatrix works on the *requested* frame, displaces exactly one coordinate of exactly one particle by +-deltar around
     the centred position, restores it, takes central differences of the returned volumes, fills the self term from translation
     invariance (every row sums to zero over each displaced coordinate) and normalises by the unperturbed volume.
-The text format of the neighbour / weight / overall files (cal_neighbors: %d / %.6f of library output) has no real-valued
-branching and is left to the repository's own tests; it is not claimed here.
+  * cal_neighbors writes, for every tessellation the library returns (stub: enumerated neighbour topologies with decimal
+    weights and volumes), one header per frame and one row per particle in id order, ids shifted to start at one, a
+    coordination number equal to the number of listed neighbours and of listed weights, weights in the order of the
+    neighbours, volumes in the overall file; the files are readable frame by frame by read_neighbors.  In the concrete replay
+    the real library runs and the same layout clauses (plus symmetry of the relation and equal weights in both directions,
+    which then come from freud itself) are checked on its output.
 """
 import os
 from fractions import Fraction
@@ -27,8 +31,9 @@ BOUNDS = {
 }
 STUBS = ["freud.box.Box.from_box -> records the box lengths; freud.locality.Voronoi().compute((box, points)).volumes -> records the "
          "points array it was called with and returns fresh positive symbols (symbolic run); the concrete replay calls the real library"]
-ASSUMPTIONS = ["the tessellation itself (neighbour symmetry, weights, volume sum) is inside compiled freud and not claimed",
-               "file formatting of cal_neighbors not claimed", "transform_matrix=False (the transformed matrix needs an N x N inverse)"]
+ASSUMPTIONS = ["the tessellation itself (neighbour symmetry, weights, volume sum) is inside compiled freud: not decided symbolically; "
+               "those clauses are only observed on the real library's output in the concrete replays (sampling, labelled)",
+               "cal_neighbors: the stubbed tessellations are enumerated topologies with decimal values (%.6f needs numbers)", "transform_matrix=False (the transformed matrix needs an N x N inverse)"]
 
 
 class Stub:
@@ -166,6 +171,159 @@ def h_volume(ctx, d, N, F, nconfig, centred):
             ctx.oblige(f"self term A[{k}, {k}:{j}] = - sum of the others", O.eq(m[k, d * k + j], want))
 
 
+class _NL(np.ndarray):
+    """stand-in for freud's NeighborList: an (nbonds, 2) integer array with a .weights attribute"""
+    weights = None
+
+
+TOPOLOGIES = {
+    # symmetric relations on 4 particles, listed sorted by the first index (as freud does); weights are symmetric decimals
+    "ring": [(0, 1), (0, 3), (1, 0), (1, 2), (2, 1), (2, 3), (3, 0), (3, 2)],
+    "star": [(0, 1), (0, 2), (0, 3), (1, 0), (2, 0), (3, 0)],
+    "full": [(i, j) for i in range(4) for j in range(4) if i != j],
+}
+
+
+class FileStub(Stub):
+    """tessellation stub for cal_neighbors: a different enumerated topology per frame, decimal weights and volumes"""
+
+    def __init__(self, ctx, topos):
+        super().__init__(ctx)
+        stub = self
+        self.frames = []
+
+        class Voronoi:
+            def compute(self, system, *a, **k):
+                n = len(stub.frames)
+                pairs = TOPOLOGIES[topos[n % len(topos)]]
+                nl = np.array(pairs, dtype=np.int64).view(_NL)
+                w = {}
+                for (i, j) in pairs:
+                    w[(i, j)] = round(0.25 + 0.125 * (min(i, j) + 1) + 0.015625 * (max(i, j) + 1) + 0.5 * n, 6)
+                nl.weights = np.array([w[p] for p in pairs])
+                self.nlist = nl
+                self.volumes = np.array([round(1.5 + 0.25 * i + n, 6) for i in range(len(system[1]))])
+                stub.frames.append((pairs, [float(x) for x in nl.weights], [float(x) for x in self.volumes], system[1]))
+                return self
+        self.locality.Voronoi = Voronoi
+
+
+def _parse_rows(path):
+    frames, cur = [], None
+    for line in open(path):
+        tok = line.split()
+        if not tok:
+            continue
+        if tok[0] == "id":
+            cur = []
+            frames.append(cur)
+        elif cur is not None:
+            cur.append(tok)
+    return frames
+
+
+def h_files(ctx, d, F, topos):
+    """cal_neighbors: file layout for every (stubbed) tessellation; the replay runs the real library"""
+    ctx.covers("PyMatterSim.neighbors.freud_neighbors.cal_neighbors", "PyMatterSim.neighbors.read_neighbors.read_neighbors", FUNCS[0])
+    fn = ctx.repo("PyMatterSim.neighbors.freud_neighbors")
+    rn = ctx.repo("PyMatterSim.neighbors.read_neighbors")
+    ru = ctx.repo("PyMatterSim.reader.reader_utils")
+    sym = ctx.mode == "sym"
+    N = 4
+    L = [C.const(ctx, x) for x in (3, 4, 5)[:d]]
+    lo = [ctx.real(f"lo{a}") for a in range(d)]
+    tot = sum(2 * lo[a] + L[a] for a in range(d))
+    ctx.assume(O.Not(O.eq(tot, 0)) if sym else abs(tot) > 1e-9)
+    rows = [[L[a] if a == b else 0 for b in range(d)] for a in range(d)]
+    base = [[0.31, 0.17, 0.73], [0.78, 0.52, 0.11], [0.12, 0.85, 0.42], [0.55, 0.33, 0.91]]
+    snaps, poss = [], []
+    for f in range(F):
+        pos = [[ctx.real(f"p{f}_{i}_{a}") for a in range(d)] for i in range(N)]
+        if not sym:
+            pos = [[lo[a] + float(L[a]) * ((base[(i + f) % N][a] + 0.05 * np.tanh(pos[i][a])) % 1.0) for a in range(d)] for i in range(N)]
+        snaps.append(C.snapshot(ctx, ru, f, [1] * N, C.farr(ctx, pos), rows, lo=lo))
+        poss.append(pos)
+    S = ru.Snapshots(nsnapshots=F, snapshots=snaps)
+    out = os.path.join(ctx.tmpdir(), "voro")
+    stub = saved = None
+    if sym:
+        stub = FileStub(ctx, topos)
+        saved = fn.__dict__.get("freud")
+        fn.__dict__["freud"] = stub
+    try:
+        fn.cal_neighbors(S, outputfile=out)
+    finally:
+        if sym:
+            fn.__dict__["freud"] = saved
+    wname = out + (".edgelength.dat" if d == 2 else ".facearea.dat")
+    ok_files = all(os.path.exists(p) for p in (out + ".neighbor.dat", wname, out + ".overall.dat"))
+    ctx.oblige("neighbour, weight and overall files are written", ok_files)
+    if not ok_files:
+        return
+    nb, wt = _parse_rows(out + ".neighbor.dat"), _parse_rows(wname)
+    ov = [l.split() for l in open(out + ".overall.dat")][1:]
+    ctx.output("frames", len(nb))
+    ctx.oblige("one header per frame in the neighbour and the weight file", len(nb) == F and len(wt) == F)
+    ctx.oblige("overall file: one row per particle and frame", len(ov) == F * N)
+    if len(nb) != F or len(wt) != F or len(ov) != F * N:
+        return
+    for f in range(F):
+        ids = [int(r[0]) for r in nb[f]]
+        ctx.oblige(f"frame {f}: every particle once, in id order (ids from 1)", ids == list(range(1, N + 1)) and [int(r[0]) for r in wt[f]] == ids)
+        if ids != list(range(1, N + 1)):
+            continue
+        lists = {}
+        for r, rw in zip(nb[f], wt[f]):
+            i = int(r[0]) - 1
+            cn = int(r[1])
+            lists[i] = ([int(x) - 1 for x in r[2:]], [float(x) for x in rw[2:]])
+            ctx.oblige(f"frame {f} particle {i}: cn = listed neighbours = listed weights", cn == len(r) - 2 == len(rw) - 2 == int(rw[1]))
+            ctx.oblige(f"frame {f} particle {i}: overall row", int(ov[f * N + i][0]) == i + 1 and int(ov[f * N + i][1]) == cn)
+            ctx.oblige(f"frame {f} particle {i}: ids in range", all(0 <= j < N for j in lists[i][0]))
+        if len(lists) != N:
+            continue
+        # with few particles in a periodic box the real tessellation may list a pair more than once (through different
+        # images) and a particle as neighbour of its own image: symmetry and equal weights are compared as multisets
+        def bonds(i, j):
+            return sorted(round(w, 5) for k, w in zip(lists[i][0], lists[i][1]) if k == j)
+        sym_rel = all(len(bonds(i, j)) == len(bonds(j, i)) for i in range(N) for j in range(N))
+        ctx.oblige(f"frame {f}: neighbour relation symmetric", sym_rel)
+        if sym_rel:
+            same_w = all(all(abs(x - y) < 2e-5 for x, y in zip(bonds(i, j), bonds(j, i))) for i in range(N) for j in range(N))
+            ctx.oblige(f"frame {f}: weights positive and equal in both directions",
+                       same_w and all(w > 0 for i in range(N) for w in lists[i][1]))
+        if sym:
+            pairs, ws, vols, pts = stub.frames[f]
+            for i in range(N):
+                want_n = [j for (a, j) in pairs if a == i]
+                want_w = [ws[k] for k, (a, j) in enumerate(pairs) if a == i]
+                ctx.oblige(f"frame {f} particle {i}: the library's neighbours, in its order", lists[i][0] == want_n)
+                ctx.oblige(f"frame {f} particle {i}: the library's weights, in the order of the neighbours",
+                           len(lists[i][1]) == len(want_w) and all(abs(x - y) < 5e-7 for x, y in zip(lists[i][1], want_w)))
+                ctx.oblige(f"frame {f} particle {i}: the library's volume", abs(float(ov[f * N + i][2]) - vols[i]) < 5e-7)
+                for a in range(3):
+                    want = (poss[f][i][a] - (lo[a] + L[a] / 2)) if a < d else 0
+                    ctx.oblige(f"frame {f}: tessellation called with particle {i} coordinate {a} of this frame, centred", O.eq(pts[i, a], want))
+        else:
+            vsum = sum(float(ov[f * N + i][2]) for i in range(N))
+            box = float(np.prod([float(x) for x in L]))
+            ctx.oblige(f"frame {f}: cell volumes sum to the box volume", abs(vsum - box) < 1e-3 * box)
+    # the neighbour-file reader takes the files frame by frame
+    with open(out + ".neighbor.dat") as fh:
+        for f in range(F):
+            arr = rn.read_neighbors(fh, N, 20)
+            okr = arr.shape[0] == N and all(int(arr[i, 0]) == len(nb[f][i]) - 2 and [int(x) for x in arr[i, 1:1 + int(arr[i, 0])]] == [int(x) - 1 for x in nb[f][i][2:]]
+                                           for i in range(N))
+            ctx.oblige(f"frame {f}: read_neighbors returns the written list", okr)
+
+
+def cfg_files(tier, seed):
+    out = [dict(d=2, F=2, topos=["ring", "star"]), dict(d=3, F=2, topos=["full", "ring"]), dict(d=2, F=1, topos=["star"])]
+    if tier == "thorough":
+        out += [dict(d=3, F=3, topos=["star", "full", "ring"]), dict(d=2, F=3, topos=["ring", "ring", "full"])]
+    return out
+
+
 def cfg(tier, seed):
     out = [dict(d=2, N=3, F=1, nconfig=0, centred=False), dict(d=3, N=3, F=1, nconfig=0, centred=True),
            dict(d=2, N=4, F=2, nconfig=1, centred=False), dict(d=3, N=4, F=2, nconfig=1, centred=False),
@@ -175,4 +333,5 @@ def cfg(tier, seed):
     return out
 
 
-HARNESSES = [H("volume_matrix_structure", h_volume, cfg, timeout_ms=30000, abstract=True, budget_s=300)]
+HARNESSES = [H("volume_matrix_structure", h_volume, cfg, timeout_ms=30000, abstract=True, budget_s=300),
+             H("neighbour_files", h_files, cfg_files, timeout_ms=30000, abstract=True, budget_s=300)]
